@@ -6,6 +6,7 @@ package drivers
 // result goes to an NDJSON trace that TLC validates against TraceLifecycle.tla.
 
 import (
+	"strings"
 	"encoding/json"
 	"errors"
 	"fmt"
@@ -95,6 +96,7 @@ type lcCase struct {
 	Calls      []string `json:"calls"`
 	Concurrent bool     `json:"concurrent"` // run the calls from two goroutines (alternating assignment)
 	LineDelay  int      `json:"line_delay_ms"`
+	LineVariant int     `json:"line_variant"` // which rejected line plan "badline" prints
 }
 
 func runLifecycleCase(c lcCase, tmp string) []map[string]interface{} {
@@ -126,7 +128,16 @@ func runLifecycleCase(c lcCase, tmp string) []map[string]interface{} {
 				mu.Unlock()
 				fmt.Fprintf(r.StdoutW(), "1|1|unix|%s|netrpc|\n", f.path)
 			case "badline":
-				fmt.Fprintf(r.StdoutW(), "1|1|unix\n")
+				// a line the client rejects -- at the field count, or only after the address has been
+				// resolved (protocol not allowed / certificate that does not parse)
+				switch c.LineVariant % 3 {
+				case 0:
+					fmt.Fprintf(r.StdoutW(), "1|1|unix\n")
+				case 1:
+					fmt.Fprintf(r.StdoutW(), "1|1|unix|%s|grpc|\n", filepath.Join(tmp, "nobody-listens.sock"))
+				default:
+					fmt.Fprintf(r.StdoutW(), "1|1|tcp|127.0.0.1:1|netrpc|%s\n", strings.Repeat("not-a-certificate-", 4))
+				}
 			case "silent":
 			case "partial":
 				fmt.Fprintf(r.StdoutW(), "1|1|unix|/nonexistent/half")
